@@ -351,7 +351,8 @@ def regf(exclude=()):
 
 def tasks():
     out = [ContractTask(c, regf) for c in CONTRACTS if PROP in c.props] + \
-        [FuncTask("list-op-facts", dilq.list_facts_task, False, "model-validation")]
+        [FuncTask("seq-lemmas", dilq.seq_lemmas_task, True, "lemma"),
+         FuncTask("list-op-facts", dilq.list_facts_task, False, "model-validation")]
     # between L2 and Manager.got_record: records that arrive while the link is still being selected are parked and handed
     # over in arrival order (C11's contracts on DilatedConnectionProtocol); between Inbound and the application: what a
     # subchannel does with OPEN/DATA/CLOSE that arrived before its protocol was attached (C13's contracts) - both are part
